@@ -42,6 +42,7 @@ MISSED_FIRST = {  # the property's own check missed it before it was strengthene
     "C14-e": "C14: more exception kinds in the interrupt stream (KeyboardInterrupt, StopIteration inside the tracker)",
     "C15-d": "C15: float32 fields with automatic intensity levels",
     "C15-e": "C15: repeated time stamps in the parallel stream",
+    "C17-e": "C17: grid sizes with large prime factors (13, 17, 29, 37, 58) - every generated grid had an FFT-friendly size before",
 }
 rows = []
 for d in sorted(ROOT.iterdir()):
